@@ -302,6 +302,7 @@ func checkC08(c *Check) {
 	c01R5(c, R)
 	serverLoopRule = "C01.R5"
 	handlerBuiltPerCheck(c, "C08.R3", fn, procCall)
+	requestIsReadOnly(c, "C08.R5")
 	// denial is returned as is: covered by C01.R5's return classification; restated here for the denial edge
 	respArg := resolveCell(stripConv(callArgs(procCall)[2]))
 	okAsIs := false
@@ -675,4 +676,71 @@ func processInvoke(P *Program, R *Roles) ssa.CallInstruction {
 		}
 	}
 	return nil
+}
+
+// requestIsReadOnly: what Check judges is the request as Envoy sent it. No own function (interceptors and
+// logging included — they run before Check on the same object) writes into the CheckRequest object graph:
+// no map update on a map obtained from an ext_authz request type (getter or field), no store into a field of
+// such a type, no element store into a slice obtained from one.
+func requestIsReadOnly(c *Check, rule string) {
+	P := c.P
+	const envoyAuth = "github.com/envoyproxy/go-control-plane/envoy/service/auth/v3"
+	isReqType := func(t types.Type) bool {
+		n, ok := derefType(t).(*types.Named)
+		if !ok || n.Obj().Pkg() == nil || n.Obj().Pkg().Path() != envoyAuth {
+			return false
+		}
+		return n.Obj().Name() == "CheckRequest" || strings.HasPrefix(n.Obj().Name(), "AttributeContext")
+	}
+	fromRequest := func(v ssa.Value) bool {
+		for _, l := range Leaves(v, leafOpts{noConcat: true}) {
+			switch x := resolveCell(stripConv(l)).(type) {
+			case *ssa.Call:
+				if x.Common().IsInvoke() {
+					continue
+				}
+				if callee := x.Common().StaticCallee(); callee != nil && callee.Signature.Recv() != nil && isReqType(callee.Signature.Recv().Type()) {
+					return true
+				}
+			case *ssa.UnOp:
+				if fa, ok := x.X.(*ssa.FieldAddr); ok && x.Op == token.MUL && isReqType(fa.X.Type()) {
+					return true
+				}
+			case *ssa.Field:
+				if isReqType(x.X.Type()) {
+					return true
+				}
+			}
+		}
+		return false
+	}
+	n, sites := 0, 0
+	for _, fn := range P.Funcs {
+		if !isOwnPath(pkgPathOf(fn)) || strings.Contains(pkgPathOf(fn), "/config/gen/") {
+			continue
+		}
+		n++
+		for _, b := range fn.Blocks {
+			for _, ins := range b.Instrs {
+				switch x := ins.(type) {
+				case *ssa.MapUpdate:
+					sites++
+					if fromRequest(x.Map) {
+						c.Fail(rule, "request-read-only/"+fnKey(fn), P.Pos(x.Pos()), "a map of the ext_authz request (its headers) is written in "+fnKey(fn)+": the chains are no longer judged on the request as it was sent")
+					}
+				case *ssa.Store:
+					if fa, ok := x.Addr.(*ssa.FieldAddr); ok && isReqType(fa.X.Type()) {
+						if al, isA := resolveCell(fa.X).(*ssa.Alloc); isA && al.Parent() == fn {
+							continue // an object built here, not the request
+						}
+						c.Fail(rule, "request-read-only/"+fnKey(fn), P.Pos(x.Pos()), "a field of the ext_authz request is written in "+fnKey(fn))
+					}
+					if ia, ok := x.Addr.(*ssa.IndexAddr); ok && fromRequest(ia.X) {
+						c.Fail(rule, "request-read-only/"+fnKey(fn), P.Pos(x.Pos()), "an element of a slice of the ext_authz request is written in "+fnKey(fn))
+					}
+				}
+			}
+		}
+	}
+	c.Obl(n > 50, rule, "request-read-only", "-", fmt.Sprintf("%d own functions, %d map updates: none writes into the request", n, sites), "own functions not enumerated (anchor lost)")
 }
